@@ -18,13 +18,13 @@ def run(ctx):
     res = fw.corr(ctx, "halt", 1, driver_suite=False, timeout=900)
     fw.report_corr(ctx, "halt", res, known_features=feats)
     # the bulk concentrated-liquidity histories must not panic or stall either (no model comparison needed here)
-    res2 = fw.corr(ctx, "cl", 40 if ctx.thorough() else 4, timeout=1500)
+    res2 = fw.corr(ctx, "cl", 150 if ctx.thorough() else 4, timeout=1500)
     if res2 is not None:
         res2["oracle_fails"] = [f for f in res2["oracle_fails"] if f["check"] in ("no_halt", "no_hang")]
         fw.report_corr(ctx, "cl", res2)
     # every other suite that drives real blocks reports a FinalizeBlock error / panic as `no_halt`: any such verdict is a
     # violation of THIS property, whichever module's hook caused it (known ones are matched by their class features)
-    sizes = {"share": (12, 60), "da": (25, 150), "gauge": (2, 8), "mint": (2, 6), "govtally": (3, 10), "fee": (2, 6)}
+    sizes = {"share": (12, 200), "da": (25, 800), "gauge": (2, 60), "mint": (2, 40), "govtally": (3, 60), "fee": (2, 20)}
     for suite, (nq, nt) in sizes.items():
         r = fw.corr(ctx, suite, nt if ctx.thorough() else nq, driver_suite=False, timeout=1500)
         if r is None:
